@@ -11,6 +11,8 @@
  *                             "block.h264." Annex B; the sink answers the
  *                             flow format request with encapsulation out_enc
  *                             (annexb | len1 | len2 | len4 | nalu)
+ *   defer <n>                 (before new) the sink answers the flow format request later: once n more
+ *                             inputs have returned after the one during which it was asked (-1: at once)
  *   feed <hex> <seg>          upipe_input of a block uref holding the octets,
  *                             cut into segments seg = a+b+c ("-": one)
  *   release                   upipe_release of the framer (flushes the last
@@ -174,6 +176,27 @@ static void sink_input(struct upipe *upipe, struct uref *uref, struct upump **up
     uref_free(uref);
 }
 
+/* deferred flow format answers ("new <enc> defer=<n>") */
+static int defer_answer = -1, pending_left;
+static struct urequest *pending_ff;
+static uint8_t out_enc_fwd(void);
+static int answer_ff(struct urequest *urequest)
+{
+    struct uref *uref = uref_dup(urequest->uref);
+    assert(uref != NULL);
+    uref_flow_delete_global(uref);
+    ubase_assert(uref_h26x_flow_set_encaps(uref, out_enc_fwd()));
+    return urequest_provide_flow_format(urequest, uref);
+}
+static void after_input(void)
+{
+    if (pending_ff == NULL) return;
+    if (pending_left > 0) { pending_left--; return; }
+    struct urequest *r = pending_ff;
+    pending_ff = NULL;
+    answer_ff(r);
+}
+
 static int sink_control(struct upipe *upipe, int command, va_list args)
 {
     switch (command) {
@@ -192,16 +215,21 @@ static int sink_control(struct upipe *upipe, int command, va_list args)
     case UPIPE_REGISTER_REQUEST: {
         struct urequest *urequest = va_arg(args, struct urequest *);
         if (urequest->type == UREQUEST_FLOW_FORMAT) {
-            struct uref *uref = uref_dup(urequest->uref);
-            assert(uref != NULL);
-            uref_flow_delete_global(uref);
-            ubase_assert(uref_h26x_flow_set_encaps(uref, out_enc));
-            return urequest_provide_flow_format(urequest, uref);
+            if (defer_answer >= 0) {
+                /* a sink behind a queue: the answer comes later, after defer_answer more inputs */
+                pending_ff = urequest;
+                pending_left = defer_answer;
+                return UBASE_ERR_NONE;
+            }
+            return answer_ff(urequest);
         }
         return upipe_throw_provide_request(upipe, urequest);
     }
-    case UPIPE_UNREGISTER_REQUEST:
+    case UPIPE_UNREGISTER_REQUEST: {
+        struct urequest *urequest = va_arg(args, struct urequest *);
+        if (urequest == pending_ff) pending_ff = NULL;
         return UBASE_ERR_NONE;
+    }
     default:
         return UBASE_ERR_UNHANDLED;
     }
@@ -226,9 +254,11 @@ static int enc_of(const char *s)
     return 0;
 }
 
+static uint8_t out_enc_fwd(void) { return out_enc; }
 static void cmd_new(const char *enc)
 {
     if (framer != NULL) die("framer exists");
+    pending_ff = NULL;
     out_enc = enc_of(enc);
     printf("new enc=%s\n", enc);
     sink = upipe_void_alloc(&sink_mgr, uprobe_use(&probe));
@@ -304,6 +334,7 @@ static void cmd_feed(const char *hex, const char *seg)
     uref_attach_ubuf(uref, head);
     printf("feed n=%zu\n", n);
     upipe_input(framer, uref, NULL);
+    after_input();
 }
 
 /* one call of the start code scanner over a tight buffer */
@@ -326,6 +357,9 @@ static void cmd_mscan(const char *ctxhex, const char *hex)
 static void cmd_release(void)
 {
     if (framer == NULL) die("no framer");
+    /* an answer still on its way arrives before the application lets go */
+    pending_left = 0;
+    after_input();
     printf("release\n");
     upipe_release(framer);
     framer = NULL;
@@ -350,6 +384,7 @@ static void do_line(char *line)
     if (!strcmp(tok[0], "exec")) {
         if (framer != NULL)
             cmd_release();
+        defer_answer = -1;
         /* a loop that does not end in the code under test ends the execution
          * (SIGALRM: reported as a "san" event of kind signal) */
         alarm(25);
@@ -360,6 +395,8 @@ static void do_line(char *line)
         printf("end\n");
     } else if (!strcmp(tok[0], "new") && ntok == 2)
         cmd_new(tok[1]);
+    else if (!strcmp(tok[0], "defer") && ntok == 2)
+        defer_answer = atoi(tok[1]);     /* -1: the sink answers from inside register_request */
     else if (!strcmp(tok[0], "feed") && ntok == 3)
         cmd_feed(tok[1], tok[2]);
     else if (!strcmp(tok[0], "release"))
